@@ -1211,6 +1211,7 @@ name_parse(u8 *packet, int length, int *idx, char *name_out, int name_out_len) {
 	int name_end = -1;
 	int j = *idx;
 	int ptr_count = 0;
+	int wire_len = 1; /* octets the expanded name needs on the wire */
 #define GET32(x) do { if (j + 4 > length) goto err; memcpy(&t32_, packet + j, 4); j += 4; x = ntohl(t32_); } while (0)
 #define GET16(x) do { if (j + 2 > length) goto err; memcpy(&t_, packet + j, 2); j += 2; x = ntohs(t_); } while (0)
 #define GET8(x) do { if (j >= length) goto err; x = packet[j++]; } while (0)
@@ -1228,7 +1229,7 @@ name_parse(u8 *packet, int length, int *idx, char *name_out, int name_out_len) {
 		u8 label_len;
 		GET8(label_len);
 		if (!label_len) break;
-		if (label_len & 0xc0) {
+		if ((label_len & 0xc0) == 0xc0) {
 			u8 ptr_low;
 			GET8(ptr_low);
 			if (name_end < 0) name_end = j;
@@ -1240,7 +1241,11 @@ name_parse(u8 *packet, int length, int *idx, char *name_out, int name_out_len) {
 			if (++ptr_count > length) return -1;
 			continue;
 		}
+		/* 0x40 and 0x80 are reserved label types (RFC 1035 4.1.4) */
 		if (label_len > 63) return -1;
+		/* RFC 1035 2.3.4: names are limited to 255 octets */
+		wire_len += 1 + label_len;
+		if (wire_len > 255) return -1;
 		if (cp != name_out) {
 			if (cp + 1 >= end) return -1;
 			*cp++ = '.';
